@@ -4,6 +4,7 @@ import (
 	"fmt"
 	"math/rand"
 	"sort"
+	"strings"
 	"time"
 
 	"github.com/PowerDNS/lightningstream/snapshot"
@@ -555,4 +556,26 @@ func genCleanerBig(g *Gen) {
 		}
 	}
 	g.Emit("hist/big", lines...)
+}
+
+// genCleanerCommit (C05): the record "merged AND contained in an own uploaded snapshot" that
+// guards the removal of a stale instance's last snapshot changes only through SetCommitted:
+// sequences of SetCommitted calls on the real worker, each followed by the caller going on to
+// update its own map (the oracle inside cleaner.commit).
+func genCleanerCommit(g *Gen, n int) {
+	count := 6
+	if g.Thorough() {
+		count = 60
+	}
+	for s := 0; s < count; s++ {
+		lines := []string{"cleaner.new 10 100 1"}
+		for k := 0; k < 1+g.R.Intn(4); k++ {
+			var kv []string
+			for _, inst := range []string{"61", "62", "63"}[:1+g.R.Intn(3)] {
+				kv = append(kv, fmt.Sprintf("%s=%d", inst, 1+g.R.Intn(90)))
+			}
+			lines = append(lines, "cleaner.commit "+strings.Join(kv, ","))
+		}
+		g.Emit("commit-provenance", lines...)
+	}
 }
